@@ -126,3 +126,34 @@ pub fn roundtrip_file(args: &[String]) -> i32 {
     }
     0
 }
+
+/// `a2lsim dbgmodpar <file>`: print the Debug rendering of MOD_PAR before and after one write/reload (triage helper)
+pub fn dbgmodpar(args: &[String]) -> i32 {
+    let (f, _) = a2lfile::load(&args[0], None, false).expect("load");
+    let w = f.write_to_string();
+    let (f2, _) = a2lfile::load_from_string(&w, None, false).expect("reload");
+    for (a, b) in f.project.module.iter().zip(f2.project.module.iter()) {
+        let da = format!("{:#?}", a.mod_par);
+        let db = format!("{:#?}", b.mod_par);
+        println!("mod_par equal: {}", a.mod_par == b.mod_par);
+        if let (Some(pa), Some(pb)) = (&a.mod_par, &b.mod_par) {
+            for (la, lb) in pa.memory_layout.iter().zip(pb.memory_layout.iter()) {
+                for (ia, ib) in la.if_data.iter().zip(lb.if_data.iter()) {
+                    let mut ra = String::new();
+                    let mut rb = String::new();
+                    if let Some(d) = &ia.ifdata_items { crate::c01::ifdata_repr(d, &mut ra); }
+                    if let Some(d) = &ib.ifdata_items { crate::c01::ifdata_repr(d, &mut rb); }
+                    println!("A valid={} {ra}\nB valid={} {rb}", ia.ifdata_valid, ib.ifdata_valid);
+                }
+            }
+        }
+        if a.mod_par == b.mod_par { continue; }
+        if true { continue; }
+        for (la, lb) in da.lines().zip(db.lines()) {
+            if la != lb && !la.contains("line:") && !la.contains("uid:") && !la.contains("offset") {
+                println!("- {la}\n+ {lb}");
+            }
+        }
+    }
+    0
+}
